@@ -223,11 +223,14 @@ def check_point(cls, spec, o, res):
         sobs = "EXC"
     # ---- reading is idempotent: the same object read again (value, str, status, named bits) says the same --------------
     def snapshot():
+        nonlocal r
         out = []
         for what in ("value", "str", "status"):
             try:
                 x = r.value if what == "value" else (str(r) if what == "str" else getattr(r, "status", None))
-                out.append((what, "v", repr(x) if x is not raw else "frame"))
+                if hasattr(x, "as_integer") and hasattr(x, "pack"):       # a frame: compared by content, not identity
+                    x = ("frame", len(x), x.as_integer, bool(getattr(x, "error", False)))
+                out.append((what, "v", repr(x)))
             except Exception as e:
                 out.append((what, "x", type(e).__name__))
         return out
@@ -237,6 +240,23 @@ def check_point(cls, spec, o, res):
     if not (first == second == third) or (first[0][1] == "v") != (val[0] == "v") or (first[0][1] == "x" and first[0][2] != val[1]):
         add_violation(res, f"C06:{cname}:reread-differs:{okind}",
                       f"{cname}({o}): first .value {val!r}, then on the same object {first}, {second}, {third}", case)
+    # ---- a response object is a plain value: duplicates (copy, deepcopy, pickle round trip) interpret the frame alike ------
+    import copy
+    import pickle
+    for how, dup in (("copy.copy", lambda: copy.copy(r)), ("copy.deepcopy", lambda: copy.deepcopy(r)),
+                     ("pickle", lambda: pickle.loads(pickle.dumps(r)))):
+        try:
+            r2 = dup()
+        except Exception as e:
+            add_violation(res, f"C06:{cname}:duplicate-fails:{how}", f"{how} of {cname}({o}) raised {type(e).__name__}", case)
+            continue
+        keep, r = r, r2
+        try:
+            snap2 = snapshot()
+        finally:
+            r = keep
+        if snap2 != first or type(r2) is not type(r):
+            add_violation(res, f"C06:{cname}:duplicate-differs:{how}", f"{how} of {cname}({o}) reads {snap2}, the original {first}", case)
     v1 = val[1]
     if v1 is raw and raw is not None:
         v1 = "frame"
